@@ -61,6 +61,14 @@ def gen_programs(rep, tier, families=None):
             p = dict(p)
             p["id"] = "%s@%s" % (tag, optsig(p["opts"]))
             out.append(p)
+            # C04 / C06 hold "for either attribute spelling": length-of and checksum cells are also written with the long
+            # type aliases (uint16 ...) and with the attribute in front of the declaration
+            if tag.startswith(("len:", "ck:")) and "notype" not in tag and (tier == "thorough" or optsig(p["opts"]) == "le=,sp=,ap=,pl=,pc="):
+                for suffix, spell in (("long", {"*": {"long": True}}), ("prefix", {"*": {"prefixattr": True}})):
+                    q = dict(p)
+                    q["spelling"] = spell
+                    q["id"] = "%s~%s@%s" % (tag, suffix, optsig(p["opts"]))
+                    out.append(q)
     if tier == "thorough":
         # ordered pairs of cells (GenPairs): a seeded sample of the full product under two option settings
         cfg2 = FAMILY_CFG % (2, "one", ", ".join('"%s"' % f for f in fams))
@@ -106,6 +114,26 @@ def mc_wire_machine(rep, tier):
     if "Refines" not in s.violated:
         raise Infra("WireMachine with MeasureFromPlaceholder does not violate Refines: the specification is vacuous")
     rep.cov.setdefault("spec_sensitivity", {})["MeasureFromPlaceholder"] = s.violated
+
+
+def mc_read_machine(rep, tier):
+    """The operational decoder (cursor, work list, a receiver that may hold an earlier message) refines Wire!Decode;
+    the three deviation switches (defects that were found in emitted decoders) must each make TLC find the violation."""
+    base = open(os.path.join(tlc.SPEC, "MCReadMachine.cfg")).read()
+    s1any = base.replace('Shapes = {"S1", "S2"}', 'Shapes = {"S1"}').replace('PriorMode = "fresh"', 'PriorMode = "any"')
+    longs = base.replace('Shapes = {"S1", "S2"}', 'Shapes = {"S1"}').replace("CONSTANTS", "CONSTANTS\n  StrVals <- LongStrVals", 1)
+    runs = [("S1, every earlier message as receiver content", s1any)]
+    if tier == "thorough":
+        runs += [("S1 + S2, fresh receiver", base), ("S1 with strings longer than 127 bytes", longs)]
+    for what, cfg in runs:
+        r = tlc.run_tlc("ReadMachine", cfg, workers=8, timeout=3000, heap="8g")
+        tlc.require_ok(r, "ReadMachine (%s)" % what)
+        rep.tlc(r)
+    for sw, cfg in (("AppendWithoutReset", s1any), ("KeepOnEmptyString", s1any), ("SignedPrefix", longs)):
+        s = tlc.run_tlc("ReadMachine", cfg.replace(sw + " = FALSE", sw + " = TRUE"), workers=8, timeout=900, heap="8g")
+        if "RefinesDecode" not in s.violated:
+            raise Infra("ReadMachine with %s does not violate RefinesDecode: the specification is vacuous" % sw)
+        rep.cov.setdefault("spec_sensitivity", {})[sw] = s.violated
 
 
 _RESULTS = {}
@@ -197,6 +225,8 @@ def check_codec(pid, tier):
     mc_wire(rep, tier if pid in ("C01", "C02") else "quick")
     if pid == "C04" or (tier == "thorough" and pid in ("C01", "C06")):
         mc_wire_machine(rep, tier)
+    if pid == "C02":
+        mc_read_machine(rep, tier)
     progs, results, tmp = run_family(tier, use, FOCUS[pid], rep)
     events, meta = codec.trace_of(results, use)
     rs, verdicts = codec.validate(events, meta, shards=12)
